@@ -224,8 +224,10 @@ class DULServiceProvider(threading.Thread):
         if self.raw_pdu and self._process_incoming():
             return True
 
-        # check if something comes in the client socket
-        if select.select([self.dul_socket], [], [], 0.05)[0]:
+        # check if something comes in the client socket; when there is something
+        # to send, do not wait for the peer before every outgoing PDU
+        pending = self.dimse_gen is not None or not self.from_service_user.empty()
+        if select.select([self.dul_socket], [], [], 0 if pending else 0.05)[0]:
             if self._check_incoming_pdu():
                 return True
 
